@@ -16,9 +16,9 @@ FLAGS = ["-fno-access-control", "-DOSMIUM_VERIF_INPUT_BUFFER_SIZE=64", "-DOSMIUM
 
 def build(ctx):
     vs = ctx.vsched_obj()
-    return {"h05": ctx.build("h05", ["h05.cpp"], flags=FLAGS, opt="-O1", objects=[vs]),
+    return {"h05": ctx.build("h05", ["h05.cpp"], flags=FLAGS + ctx.atomic_points(), opt="-O1", objects=[vs]),
             "h05tsan": ctx.build_tsan_free("h05tsan", ["h05.cpp"], flags=FLAGS),
-            "h05cap": ctx.build("h05cap", ["h05.cpp"], flags=["-fno-access-control", "-DOSMIUM_VERIF_INPUT_BUFFER_SIZE=64", "-DOSMIUM_VERIF_DYNAMIC_BUFFER_SIZE"], opt="-O1", objects=[vs])}
+            "h05cap": ctx.build("h05cap", ["h05.cpp"], flags=["-fno-access-control", "-DOSMIUM_VERIF_INPUT_BUFFER_SIZE=64", "-DOSMIUM_VERIF_DYNAMIC_BUFFER_SIZE"] + ctx.atomic_points(), opt="-O1", objects=[vs])}
 
 
 def run(ctx):
